@@ -98,6 +98,16 @@ Theorem C08_remainder_exact : forall p a b za zb,
 Proof. exact remainder_exact. Qed.
 Print Assumptions C08_remainder_exact.
 
+(* remainder with an integer-valued Rational divisor too (Fixnum % n/1 on Rational64, BigInt % n/1):
+   everything except two integer-valued rationals and i64::MIN % -1/1 (which panics) *)
+Theorem C08_remainder_exact_gen : forall p a b za zb,
+  wfb a = true -> wfb b = true ->
+  int_of a = Some za -> int_of b = Some zb -> zb <> 0 -> both_rational a b = false ->
+  rem_known a b = false ->
+  exists r, num_rem p a b = Ok (Some r) /\ int_of r = Some (Z.rem za zb) /\ wfb r = true.
+Proof. exact remainder_exact_gen. Qed.
+Print Assumptions C08_remainder_exact_gen.
+
 (* ---- refutations of C08_full: one machine-checked witness per recorded class; the same
    witnesses are in the corpus of lib/props/c08.py and replayed on the implementation *)
 
@@ -333,5 +343,7 @@ Example C08_example_modulo :
   num_modulo Release (Fixnum (- 2 ^ 63)) (Fixnum (-1)) = Ok (Some (Fixnum 0)) /\
   num_modulo Debug (BigInt (2 ^ 70 + 2)) (Rational (-5) 1) = Ok (Some (BigInt (-4))) /\
   num_modulo Release (Fixnum (2 ^ 40 + 1)) (Rational (- 2 ^ 31) 1) = Ok (Some (Rational (- 2 ^ 31 + 1) 1)) /\
-  modulo_known (Fixnum (2 ^ 31 - 2)) (Rational (2 ^ 31 - 1) 1) = true.
+  modulo_known (Fixnum (2 ^ 31 - 2)) (Rational (2 ^ 31 - 1) 1) = true /\
+  rem_known (Fixnum (-7)) (Rational 3 1) = false /\
+  num_rem Debug (Fixnum (-7)) (Rational 3 1) = Ok (Some (Rational (-1) 1)).
 Proof. repeat split; vm_compute; reflexivity. Qed.
